@@ -143,6 +143,30 @@ func ObserveString(label string, v string) {
 	events = append(events, Event{Kind: "observe", Label: label, Value: "hex:" + hex.EncodeToString([]byte(v))})
 }
 
+// Or, And, Not, Implies and Ite build oracle terms without forking paths.
+func Or(a, b bool) bool      { return a || b }
+func And(a, b bool) bool     { return a && b }
+func Not(a bool) bool        { return !a }
+func Implies(a, b bool) bool { return !a || b }
+func Ite(c bool, a, b int) int {
+	if c {
+		return a
+	}
+	return b
+}
+func IteByte(c bool, a, b byte) byte {
+	if c {
+		return a
+	}
+	return b
+}
+func IteF(c bool, a, b float64) float64 {
+	if c {
+		return a
+	}
+	return b
+}
+
 func DeepEqual(a, b interface{}) bool { return reflect.DeepEqual(a, b) }
 
 func Sin(x float64) float64 { return math.Sin(x) }
